@@ -27,6 +27,28 @@ def judge(res, code, keys, cfg, r, table):
     res.judged += 1
     # literal keys of executed accesses: as held by the VM states (primary) and as seen in the exported values
     literal = {int(k, 16) for k in r["storage_keys"]["literal_keys"]} | {int(k, 16) for k in r["storage_keys"].get("state_literal_keys", [])}
+    # third, independent source: hook events. An executed SLOAD / SSTORE directly preceded by a PUSH takes that PUSH's
+    # immediate as its key (the access is not a JUMPDEST, so it can only have been reached from the PUSH)
+    from_steps = set()
+    executed = (r.get("mon") or {}).get("executed_ips")
+    if executed is not None:
+        ex = set(executed)
+        kinds = evm.disasm_ref(code)
+        prev = None
+        for i, kd in enumerate(kinds):
+            if kd == "N":
+                continue
+            if kd == "O" and code[i] in (0x54, 0x55) and i in ex and prev is not None:
+                if kinds[prev] == "P":
+                    w = code[prev] - 0x5f
+                    from_steps.add(int.from_bytes(code[prev + 1:prev + 1 + w], "big"))
+                elif kinds[prev] == "O" and code[prev] == 0x5f:
+                    from_steps.add(0)
+            prev = i
+        res.count("literal_keys_from_step_events", len(from_steps))
+        if from_steps - literal:
+            res.count("keys_seen_only_by_step_events", len(from_steps - literal))
+        literal |= from_steps
     slots = {int(e["index"], 16) for e in r["layout"]}
     res.count("literal_keys_executed", len(literal))
     res.count("programs_with_big_keys", int(any(k >= 1 << 64 for k in literal)))
@@ -61,7 +83,7 @@ def shard(shard_no, nshards, seed, tier, extra):
         if ci % nshards != shard_no:
             continue
         cfg = {"permissive": True}
-        resp = d.call({"op": "analyze", "code": code.hex(), "stage": "staged", "observe": ["storage_keys"],
+        resp = d.call({"op": "analyze", "code": code.hex(), "stage": "staged", "observe": ["storage_keys", "executed"],
                        "cfg": cfg, "wd": {"every": 100, "stop_at": 200000}}, timeout=600)
         judge(res, code, {}, cfg, resp, table)
         res.count("real_contracts")
@@ -73,7 +95,7 @@ def shard(shard_no, nshards, seed, tier, extra):
         if rng.random() < 0.2:
             cfg["iters"] = rng.randint(1, 3)
             cfg["forks"] = rng.randint(1, 3)
-        req = {"op": "analyze", "code": code.hex(), "stage": "staged", "observe": ["storage_keys"],
+        req = {"op": "analyze", "code": code.hex(), "stage": "staged", "observe": ["storage_keys", "executed"],
                "cfg": cfg, "wd": {"every": 1, "stop_at": BUDGET}}
         resp = d.call(req, timeout=300)
         judge(res, code, keys, cfg, resp, table)
@@ -105,7 +127,7 @@ def replay(path):
     res = common.Result()
     d = common.Driver("rel", shim=False)
     code = bytes.fromhex(case["code"])
-    resp = d.call({"op": "analyze", "code": code.hex(), "stage": "staged", "observe": ["storage_keys"],
+    resp = d.call({"op": "analyze", "code": code.hex(), "stage": "staged", "observe": ["storage_keys", "executed"],
                    "cfg": case["cfg"], "wd": {"every": 1, "stop_at": BUDGET}}, timeout=300)
     d.stop()
     judge(res, code, {}, case["cfg"], resp, keccak.slot_hash_table())
